@@ -86,7 +86,10 @@ class Client:
 
         self.__capabilities: dict[str, str] = {}
         self.__respcode_expr = re.compile(rb"(OK|NO|BYE)\s*(.+)?")
-        self.__error_expr = re.compile(rb'(\([\w/-]+\))?\s*(".+")')
+        self.__error_code_expr = re.compile(
+            rb'\(([^\s()"]+)(?:\s+"(?:[^"\\]|\\.)*")?\)\s*'
+        )
+        self.__error_expr = re.compile(rb'"((?:[^"\\]|\\.)*)"')
         self.__size_expr = re.compile(rb"\{(\d+)\+?\}")
         self.__active_expr = re.compile(rb"ACTIVE", re.IGNORECASE)
 
@@ -322,20 +325,26 @@ class Client:
 
         :param text: the response to parse
         """
+        self.errcode = b""
+        self.errmsg = b""
+        if text is None:
+            return
+        m = self.__error_code_expr.match(text)
+        if m is not None:
+            self.errcode = m.group(1)
+            text = text[m.end() :]
+
         m = self.__size_expr.match(text)
         if m is not None:
-            self.errcode = b""
-            self.errmsg = self.__read_block(int(m.group(1)) + 2)
+            self.errmsg = self.__read_block(int(m.group(1)) + 2)[:-2]
             return
 
         m = self.__error_expr.match(text)
-        if m is None:
+        if m is not None:
+            self.errmsg = re.sub(rb"\\(.)", rb"\1", m.group(1))
+            return
+        if len(text):
             raise Error("Bad error message")
-        if m.group(1) is not None:
-            self.errcode = m.group(1).strip(b"()")
-        else:
-            self.errcode = b""
-        self.errmsg = m.group(2).strip(b'"')
 
     def _plain_authentication(
         self, login: bytes, password: bytes, authz_id: bytes = b""
